@@ -29,6 +29,7 @@ Definition elem_ltb (a b : elem) : bool :=
 (* ------------------------------------------------------------------ user processes *)
 Inductive action :=
 | APost (dt : Q) (prog : nat)              (* postEvent(t + dt, e, handler prog), remember the id *)
+| APostOn (x : elem) (dt : Q) (prog : nat) (* postEvent(t + dt, x, handler prog): as APost, on a given element *)
 | APostRep (dt0 ddt : Q) (prog : nat)      (* postRepeatingEvent(t + dt0, ddt, e, handler prog) *)
 | APostPast                                (* postEvent(clock - 1, ...): must be rejected *)
 | AUnpost (k : nat) (fatal : bool)         (* unpostEvent(ids[k mod |ids|], fatal) *)
@@ -193,6 +194,12 @@ Definition do_action (p : nat) (t : Q) (e : elem) (a : action) (s : st) : st :=
   | APost dt prog =>
       let tt := Qred (t + dt) in
       match post tt p e prog None s with
+      | (Some i, s') => emit (OPosted i tt) (push_id i s')
+      | (None, s') => emit OValueError s'
+      end
+  | APostOn x dt prog =>
+      let tt := Qred (t + dt) in
+      match post tt p x prog None s with
       | (Some i, s') => emit (OPosted i tt) (push_id i s')
       | (None, s') => emit OValueError s'
       end
